@@ -229,6 +229,13 @@ type aggregate struct {
 	violIdx    []int
 	inconcl    []string
 	perClass   map[string]int
+	skipped    int
+}
+
+func (a *aggregate) hangCount() int {
+	a.mu.Lock()
+	defer a.mu.Unlock()
+	return a.perClass["hang"]
 }
 
 func (a *aggregate) add(r *core.CaseResult) {
@@ -319,6 +326,13 @@ func supervise(p *core.Property, tier string) int {
 		go func(w int) {
 			defer wg.Done()
 			for c := range queue {
+				if agg.hangCount() >= 3 {
+					// a tree on which calls hang: three confirmed witnesses are enough, the rest of the list would only burn watchdogs
+					agg.mu.Lock()
+					agg.skipped += c.to - c.from
+					agg.mu.Unlock()
+					continue
+				}
 				runChunk(p, exe, tier, seed, c, tmp, w, timeout, agg)
 			}
 		}(w)
@@ -334,7 +348,11 @@ func supervise(p *core.Property, tier string) int {
 		}
 	}
 	if agg.cases != n {
-		agg.inconcl = append(agg.inconcl, fmt.Sprintf("only %d of %d cases completed", agg.cases, n))
+		note := fmt.Sprintf("only %d of %d cases completed", agg.cases, n)
+		if agg.skipped > 0 {
+			note += fmt.Sprintf(" (%d not started after three confirmed hangs)", agg.skipped)
+		}
+		agg.inconcl = append(agg.inconcl, note)
 	}
 
 	// classify violations
@@ -557,6 +575,12 @@ func runChunk(p *core.Property, exe, tier string, seed int64, c chunk, tmp strin
 		}
 		agg.add(&res)
 		from = last + 1
+		if agg.hangCount() >= 3 {
+			agg.mu.Lock()
+			agg.skipped += c.to - from
+			agg.mu.Unlock()
+			return
+		}
 	}
 }
 
